@@ -32,17 +32,44 @@ type c12case struct {
 }
 
 type c12result struct {
-	res     *exec.Result
-	want    *rel
-	damaged bool         // discarded or possibly lost since it was computed
-	parents []*c12result // results whose tasks are part of this result's task graph
+	res      *exec.Result
+	want     *rel
+	damaged  bool         // discarded or possibly lost since it was computed
+	parents  []*c12result // results whose tasks are part of this result's task graph
+	children []*c12result // results derived from this one
 }
 
-// damage marks r and, because Discard discards the whole task subgraph, all its ancestors.
+// damage marks r as possibly without data. Discard discards the whole task subgraph of a result,
+// hence all its ancestors; and a derived result whose root tasks are (or pipeline directly over)
+// tasks of r loses data with r, so descendants count as possibly damaged too.
 func (r *c12result) damage() {
-	r.damaged = true
-	for _, p := range r.parents {
-		p.damage()
+	// everything that shares tasks with r: its ancestors, and every descendant of those
+	anc := map[*c12result]bool{}
+	var up func(x *c12result)
+	up = func(x *c12result) {
+		if anc[x] {
+			return
+		}
+		anc[x] = true
+		for _, p := range x.parents {
+			up(p)
+		}
+	}
+	up(r)
+	seen := map[*c12result]bool{}
+	var down func(x *c12result)
+	down = func(x *c12result) {
+		if seen[x] {
+			return
+		}
+		seen[x] = true
+		x.damaged = true
+		for _, c := range x.children {
+			down(c)
+		}
+	}
+	for a := range anc {
+		down(a)
 	}
 }
 
@@ -79,7 +106,7 @@ func runC12case(t *vf.T, c c12case) {
 		return
 	}
 	if out.RunErr != nil || out.ScanErr != nil || out.Panic != nil {
-		t.Violate("base-run-failed exec="+ex, fmt.Sprintf("run: %v scan: %v panic: %v | %s", out.RunErr, out.ScanErr, out.Panic, specString(&base)))
+		t.Violate("base-run-failed exec="+ex, fmt.Sprintf("run: %v scan: %v panic: %v | %s | library log: %s", out.RunErr, out.ScanErr, out.Panic, specString(&base), logTail(12)))
 		return
 	}
 	if d := compareResult(out.Rows, want0); d != "" {
@@ -210,6 +237,10 @@ func runC12case(t *vf.T, c c12case) {
 					mu.Unlock()
 				case o.Panic != nil:
 					violate("derive-panic exec="+ex, fmt.Sprintf("%v at %s", o.Panic, o.PanicAt))
+				case o.RunErr == nil && o.ScanErr != nil && dmg:
+					// the derived result can consist of (or pipeline directly over) tasks of a result
+					// that is being discarded: the scan after the run may then report an error
+					t.Count("scans_that_reported_error_after_discard_or_loss", 1)
 				case o.RunErr != nil || o.ScanErr != nil:
 					e := o.RunErr
 					if e == nil {
@@ -223,7 +254,7 @@ func runC12case(t *vf.T, c c12case) {
 					if dmg {
 						state = "discarded-or-lost"
 					}
-					violate(fmt.Sprintf("derive-failed arg=%s ops=%s exec=%s", state, opSig(&sp), ex), fmt.Sprintf("a Func over result %d failed: %v | %s", op.R, e, specString(&sp)))
+					violate(fmt.Sprintf("derive-failed arg=%s ops=%s exec=%s", state, opSig(&sp), ex), fmt.Sprintf("a Func over result %d failed: %v | %s | library log: %s", op.R, e, specString(&sp), logTail(12)))
 				default:
 					if d := compareResult(o.Rows, want); d != "" {
 						violate(fmt.Sprintf("derive-rows-differ ops=%s exec=%s", opSig(&sp), ex), fmt.Sprintf("Func over result %d: %s | %s", op.R, d, specString(&sp)))
@@ -236,7 +267,10 @@ func runC12case(t *vf.T, c c12case) {
 					}
 					if len(want.Kinds) > 0 && !want.Weak {
 						mu.Lock()
-						results = append(results, &c12result{res: o.Res, want: want, parents: []*c12result{r, results[op.R2]}})
+						nr := &c12result{res: o.Res, want: want, parents: []*c12result{r, results[op.R2]}}
+						r.children = append(r.children, nr)
+						results[op.R2].children = append(results[op.R2].children, nr)
+						results = append(results, nr)
 						mu.Unlock()
 					}
 				}
